@@ -42,8 +42,10 @@ def encOptNat : Option Nat → Json
   | some n => J.nat n
 
 def decodeSpec (j : Json) : Except String Spec := do
+  -- `failendpoints` (corpus only): Sync fails on this object in syncEndpoints — for C10 the same as `bad`
+  let fe := (J.getBool j "failendpoints").toOption.getD false
   pure { aliases := ← J.getHexList j "aliases", cert := ← optNat j "cert", ca := ← optNat j "ca",
-         bad := ← J.getBool j "bad" }
+         bad := (← J.getBool j "bad") || fe }
 
 def decodeStep (j : Json) : Except String Step := do
   let k ← J.getStr j "k"
